@@ -79,6 +79,13 @@ struct parquet_schema_element {
     /* Field 10: logicalType (modern logical type) */
     bool has_logical_type;
     carquet_logical_type_t logical_type;
+
+    /* Not serialized: maximum definition / repetition level of this node,
+     * i.e. the number of optional-or-repeated / repeated nodes on its path
+     * from below the root (itself included). Filled in when a schema is
+     * built (from a file or through the schema builder). */
+    int16_t max_def_level;
+    int16_t max_rep_level;
 };
 
 /* ============================================================================
